@@ -64,11 +64,33 @@ def generate(r):
     lines.append("class MBase { m() { 'mbase-method' } }")
     lines.append("class Both : MBase { init(shadow) { self.p = 5; self.q = 6; self.r = 7; if shadow { self.m = || 'both-field'; } } n(x) { x + self.p } }")
     lines.append("class Own { init(shadow) { self.p = 5; self.q = 6; self.r = 7; if shadow { self.m = || 'own-field'; } } m() { 'own-method' } n(x) { x + self.p } }")
+    # methods whose arity does not fit the shared sites: the site must fail every time it is reached, not only the first
+    lines.append("class Ar1 { init() { self.p = 11; self.q = 12; self.r = 13; } m(a) { 'ar1.m' } n() { 5 } }")
+    # a class factory: one declaration (one super site) evaluated with different superclasses
+    lines.append("fn deco(base) { class Deco : base { m() { 'deco>' + super.m() } n(x) { super.n(x) + 5000 } } Deco }")
+    # a module with more cache slots than any fixed table: several hundred by-name sites of each kind
+    wide = r.random() < 0.08
+    wide_property, wide_invoke = [], []
+    if wide:
+        for k in range(r.randint(258, 300)):
+            field = r.choice(["p", "r"])
+            wide_property.append(field)
+            lines.append("fn w%d(o) { o.%s }" % (k, field))
+        for k in range(r.randint(258, 300)):
+            method = r.choice(["m", "n"])
+            wide_invoke.append(method)
+            lines.append("fn v%d(o) { o.%s }" % (k, "m()" if method == "m" else "n(1)"))
     header = len(lines)
 
     def receiver():
-        kind = r.choice(["s", "s", "d", "d", "d", "sh", "flip", "flipm", "both", "own", "ps", "pbase"])
+        kind = r.choice(["s", "s", "d", "d", "d", "sh", "flip", "flipm", "both", "own", "ps", "pbase", "ar", "deco", "deco"])
         base = r.randint(1, 50) * 10
+        if kind == "ar":
+            return "Ar1()", "ARITY", {"p": 11, "r": 13}, 0
+        if kind == "deco":
+            name, order, tag = r.choice(static)
+            n_extra = 6000 if name.startswith("U") else 5000
+            return "deco(%s)(%d)" % (name, base), "deco>" + tag, {"p": base + order.index("p"), "r": base + order.index("r")}, n_extra
         if kind == "s":
             name, order, tag = r.choice(static)
             expr = "%s(%d)" % (name, base) if r.random() < 0.8 or not name.startswith("S") else "%s.make(%d)" % (name, base)
@@ -102,6 +124,27 @@ def generate(r):
         site = r.choice(["m", "p", "q", "n", "mix", "bound", "incr", "peer", "peer", "launch", "launch", "peerm", "peerm"])
         if site == "peerm" and not (expr.startswith("PS(") or expr.startswith("PBase(")):
             site = "m"
+        if wide and r.random() < 0.5 and tag not in (None, "ARITY", "shadow") and not tag.endswith("-field"):
+            # two sites whose slot numbers are 256 apart, reached with the same class one after the other
+            if r.random() < 0.5:
+                k = r.randrange(len(wide_property) - 256)
+                lines.append("if true { let o = %s; print(w%d(o), w%d(o), w%d(o)); }" % (expr, k, k + 256, k))
+                expect.append("%d %d %d" % (fields[wide_property[k]], fields[wide_property[k + 256]], fields[wide_property[k]]))
+            else:
+                k = r.randrange(len(wide_invoke) - 256)
+                value = {"m": tag, "n": str(1 + fields["p"] + n_extra)}
+                lines.append("if true { let o = %s; print(v%d(o), v%d(o), v%d(o)); }" % (expr, k, k + 256, k))
+                expect.append("%s %s %s" % (value[wide_invoke[k]], value[wide_invoke[k + 256]], value[wide_invoke[k]]))
+            continue
+        if tag == "ARITY":
+            if site in ("m", "mix", "launch", "peerm"):
+                lines.append("try { print(callm(%s)); } catch e: Error { print('arity'); }" % expr)
+                expect.append("arity")
+                continue
+            if site in ("n", "bound"):
+                lines.append("try { print(calln(%s, 1)); } catch e: Error { print('arity'); }" % expr)
+                expect.append("arity")
+                continue
         if site == "m":
             if tag is None:
                 lines.append("try { print(callm(%s)); } catch e: Error { print('no m'); }" % expr)
